@@ -57,8 +57,17 @@ Ltac filt :=
     [ rewrite filter_app'
     | rewrite steps_children_filter
     | rewrite filter_map_all by tag_dec
-    | rewrite filter_map_none by tag_dec ];
-  xsimp.
+    | rewrite filter_map_none by tag_dec
+    | progress xsimp ].
+(* the same, for every `filter (has_tag K) C` of the goal, each computed on its own *)
+Ltac filt_all C :=
+  repeat match goal with
+  | |- context [filter (has_tag ?K) C] =>
+      let l := fresh "l" in let F := fresh "F" in
+      evar (l : list xml);
+      assert (F : filter (has_tag K) C = l) by (subst C l; filt; rewrite ?app_nil_r; reflexivity);
+      rewrite F; clear F; subst l
+  end.
 
 (* links: the optional name attribute written under `if link[1]:` comes back unless it is "" *)
 Ltac xlinks_tac :=
@@ -132,7 +141,7 @@ Proof.
         rewrite forallb_forall in H; apply (H x Hx) end. }
   destruct st as [st|]; [|discriminate].
   cbn [xml_save_suite xml_load_suite].
-  unfold xml_save_node_metadata_attrs, xml_save_node_metadata_children, xfindall, xfind.
+  unfold xml_save_node_metadata_attrs, xml_save_node_metadata_children, xfind, xfindall.
   cbn [xchildren m_name m_description m_tags m_properties m_links].
   destruct su as [su|];
     [match goal with H : oresult_safe (Some su) = true |- _ =>
@@ -142,6 +151,55 @@ Proof.
     [match goal with H : oresult_safe (Some td) = true |- _ =>
        destruct (res_facts td H) as (zt & Ht1 & Ht2 & Ht3 & Ht4 & Ht5 & Ht6); destruct td as [t1 t2 t3 t4 t5];
        cbn [r_start r_end r_status r_status_details r_steps] in Ht1, Ht3, Ht4, Ht5, Ht6; subst t1 end|]).
-  all: destruct en as [en|]; filt; xrw; rewrite ?app_nil_r.
+  all: destruct en as [en|].
+  all: match goal with |- context [filter _ ?c] => set (C := c) end; filt_all C; subst C.
+  all: xsimp; xrw.
+  all: unfold xattr, xhas_attr, xattr_opt, has_key; cbn [xattrs];
+       rewrite ?Hs2, ?Hs3, ?Hs4, ?Hs5, ?Hs6, ?Ht2, ?Ht3, ?Ht4, ?Ht5, ?Ht6.
+  all: try destruct s2; try destruct t2; xsimp; xrw.
+  all: rewrite ?Hs6, ?Ht6; cbn [bind].
+  all: rewrite mapM_map_id by (intro; reflexivity); cbn [bind].
+  all: rewrite mapM_map_id by (intros [? ?]; reflexivity); cbn [bind].
+  all: xlinks_tac; cbn [bind].
+  all: rewrite Htests; cbn [bind]; rewrite Hsub; cbn [bind].
+  all: rewrite dict_of_pairs_id by assumption; rewrite tests_dict_id by assumption; reflexivity.
+Qed.
+
+Lemma xml_depth_child x t a tx c : In x c -> (xml_depth x < xml_depth (Elem t a tx c))%nat.
+Proof. intro H. cbn [xml_depth]. pose proof (fold_max_le xml_depth x c H). lia. Qed.
+
+Lemma xsuite_depth_le s : (suite_depth s <= xml_depth (xml_save_suite tc s))%nat.
+Proof.
+  induction s as [m st en su td tests subs IH] using suite_ind'.
+  cbn [suite_depth xml_save_suite xml_depth]. apply le_n_S. apply fold_max_lub. intros x Hx.
+  rewrite Forall_forall in IH. specialize (IH x Hx).
+  etransitivity; [exact IH|]. apply (fold_max_le xml_depth). repeat rewrite in_app_iff.
+  pose proof (in_map (xml_save_suite tc) _ _ Hx). tauto.
+Qed.
+
+Theorem xml_report_rt now r : xml_safeb r = true -> unique_keys r ->
+  xml_load_report tc (xml_save_report tc now r) = Ok (with_saving (Some now) r).
+Proof.
+  intros Hs Hu. destruct r as [title info st en sav nb su td suites].
+  unfold unique_keys, unique_keysb in Hu. unfold xml_safeb in Hs.
+  cbn [rp_suites rp_title rp_info rp_start rp_session_setup rp_session_teardown] in Hs, Hu. split_and.
+  unfold xml_save_report, xml_load_report, with_saving, xfind, xfindall.
+  cbn [xchildren rp_suites rp_title rp_info rp_start rp_end rp_nb_threads rp_session_setup rp_session_teardown].
+  assert (Hsu : mapM (fun e => xml_load_suite tc (xml_depth e) e) (map (xml_save_suite tc) suites) = Ok suites).
+  { apply mapM_map_id_in. intros x Hx. apply xsuite_rt; [| |apply xsuite_depth_le].
+    - match goal with H : forallb suite_safe suites = true |- _ => rewrite forallb_forall in H; apply H; exact Hx end.
+    - rewrite forallb_forall in Hu. apply Hu. exact Hx. }
+  destruct st as [st|]; [|discriminate].
+  destruct su as [su|];
+    [match goal with H : oresult_safe (Some su) = true |- _ =>
+       destruct (res_facts su H) as (zs & Hs1 & Hs2 & Hs3 & Hs4 & Hs5 & Hs6); destruct su as [s1 s2 s3 s4 s5];
+       cbn [r_start r_end r_status r_status_details r_steps] in Hs1, Hs3, Hs4, Hs5, Hs6; subst s1 end|];
+  (destruct td as [td|];
+    [match goal with H : oresult_safe (Some td) = true |- _ =>
+       destruct (res_facts td H) as (zt & Ht1 & Ht2 & Ht3 & Ht4 & Ht5 & Ht6); destruct td as [t1 t2 t3 t4 t5];
+       cbn [r_start r_end r_status r_status_details r_steps] in Ht1, Ht3, Ht4, Ht5, Ht6; subst t1 end|]).
+  all: destruct en as [en|].
+  all: match goal with |- context [filter _ ?c] => set (C := c) end; filt_all C; subst C.
+  all: xsimp; xrw.
 Abort.
 End XmlRoundTrip.
